@@ -144,7 +144,7 @@ def run():
             for o, nw in zip(olds, news):
                 s = s.replace(o, nw)
             open(p, 'w').write(s)
-            env = dict(os.environ, GECS_REPO=tmp, GV_EVID_DIR=os.path.join(tmp, 'evidence'), GV_REPLAY_DIR=os.path.join(tmp, 'replay'),
+            env = dict(os.environ, GV_NO_KANI=os.environ.get('GV_SELFTEST_KANI', '') and '' or '1', GECS_REPO=tmp, GV_EVID_DIR=os.path.join(tmp, 'evidence'), GV_REPLAY_DIR=os.path.join(tmp, 'replay'),
                        GV_GEN_DIR=os.path.join(tmp, 'gen'))
             verdicts = {}
             for pr in props:
